@@ -275,6 +275,22 @@ public:
 		return *this;
 	}
 
+	/**
+	Reads `x.length()` items into the array (set its length beforehand): the inverse of `<<` for arrays
+	*/
+	template<class T>
+	File& operator>>(Array<T>& x)
+	{
+		if (_endian == ASL_OTHER_ENDIAN || !IsArithmetic<T>::value)
+		{
+			for (int i = 0; i < x.length(); i++)
+				*this >> x[i];
+		}
+		else
+			read(&x[0], x.length() * (int)sizeof(T));
+		return *this;
+	}
+
 	template<class T>
 	File& operator<<(const Array<T>& x)
 	{
